@@ -80,3 +80,31 @@ theorem EffInv.runPM {P : World → Prop} (h : EffInv P) {α : Type} (p : PM α)
     P (Mint.runPM p w).1 := h.run _ w hw
 
 end Gonuts.Model.Mint
+
+namespace Gonuts.Model.Mint
+
+@[simp] theorem runPM_failIf (c : Prop) [Decidable c] (e : E) (w : World) :
+    runPM (failIf c e) w = if c then (w, .error e) else (w, .ok ()) := by
+  unfold failIf; split <;> rfl
+
+@[simp] theorem runPM_liftE {α : Type} (x : Except E α) (w : World) :
+    runPM (liftE x) w = (w, x) := by
+  unfold liftE; cases x <;> rfl
+
+@[simp] theorem runPM_failOpt (v : Option E) (w : World) :
+    runPM (failOpt v) w = match v with | some e => (w, .error e) | none => (w, .ok ()) := by
+  unfold failOpt; cases v <;> rfl
+
+/-- No storage fault is armed. -/
+def NoFault (w : World) : Prop := w.faultAt = none
+
+theorem exec_noFault {β : Type} (w : World) (e : Eff β) (h : NoFault w) : NoFault (exec w e).1 := by
+  unfold NoFault at *
+  unfold exec
+  split
+  · split
+    · rfl
+    · split <;> exact h
+  · split <;> exact h
+
+end Gonuts.Model.Mint
